@@ -357,7 +357,8 @@ let do_oracle fields =
       else begin
         let best = List.fold_left (fun a (_, v) -> max a v) min_int vals in
         let arg = List.filter_map (fun (m, v) -> if v = best then Some (String.sub m 0 4) else None) vals in
-        parts := (Printf.sprintf "d%d=%s:%s" d (score_text best) (String.concat "," arg)) :: !parts
+        let full = List.filter_map (fun (m, v) -> if v = best then Some m else None) vals in
+        parts := (Printf.sprintf "d%d=%s:%s;%s" d (score_text best) (String.concat "," arg) (String.concat "," full)) :: !parts
       end
     done;
     let line = "oracle " ^ String.concat " " (List.rev !parts) in
